@@ -39,7 +39,7 @@ COMPONENTS = {
     "real": ["SciPyOptimizer._initialize_bounds/_initialize_constraints*/_parse_options", "NormalizedConstraints", "get_masked_linear_constraints", "validate_supported_constraints"],
     "stub": ["FakeSciPy", "SimEvaluator (affine world)", "sim/inject sampler"],
 }
-PROBES = ["feasibility_compared", "infeasible_probe", "feasible_probe", "jacobian_compared", "bounds_compared", "maxiter_compared",
+PROBES = ["constraint_first_runs", "feasibility_compared", "infeasible_probe", "feasible_probe", "jacobian_compared", "bounds_compared", "maxiter_compared",
           "options_absent", "options_empty", "rejected_unsupported", "two_sided", "equality", "masked", "de_objects", "linear_retained_row",
           "linear_dropped_row"]
 METHODS = GRADIENT + NOGRAD + [DE]
@@ -160,14 +160,21 @@ def generate(seed: int, index: int, tier: str) -> dict:
                 probes.append([float(v) for v in (np.asarray(base_pt) + t * d)])
     script = []
     alpha = gen_scipy.alphabet(scn)
+    constraint_first = index % 2 == 1 and method != DE and any(q == "c" for q, _ in alpha)
     for p in probes:
         # visit the starting point in between: probes that straddle a narrow band at a large |x| lie closer
         # together than the plug-in's point tolerance (they would legitimately count as one point, C07)
-        script.append({"q": "f", "k": None, "pt": -1, "pts": [-1]})
-        script.append({"q": "f", "k": None, "pt": p, "pts": [p]})
+        if constraint_first:
+            # the handed constraint functions are evaluated on their own, the objective is never asked
+            first_c = next((q, k) for q, k in alpha if q == "c")
+            script.append({"q": "c", "k": first_c[1], "pt": -1, "pts": [-1]})
+        else:
+            script.append({"q": "f", "k": None, "pt": -1, "pts": [-1]})
+            script.append({"q": "f", "k": None, "pt": p, "pts": [p]})
         for q, k in alpha:
-            if q != "f":
+            if q != "f" and not (constraint_first and q == "g"):
                 script.append({"q": q, "k": k, "pt": p, "pts": [p]})
+    scn["constraint_first"] = constraint_first
     scn["fake"]["script"] = script
     scn["fake"]["probes"] = probes
     scn["stratum"] = method
@@ -197,6 +204,8 @@ def execute(scn: dict) -> dict:
     mask = model.mask_of(cfg)
     if (~mask).any():
         probe("masked")
+    if scn.get("constraint_first"):
+        probe("constraint_first_runs")
     if scn.get("expect_reject"):
         if ex is not None and ex[0] == "exception" and "NotImplementedError" in str(ex[2]) and ctx.fake.calls == 0:
             probe("rejected_unsupported")
